@@ -429,7 +429,9 @@ class BlackbirdProgram:
             for k, v in self._var.items():
                 var_type = inv_type_map[np.array(v).dtype.kind]
                 array_string = ""
-                if isinstance(v, Iterable):
+                if isinstance(v, str):
+                    script.append('{} {} = "{}"'.format(var_type, k, v))
+                elif isinstance(v, Iterable):
                     for row in v:
                         array_string += "\n    " + "".join("{}, ".format(i) for i in row)[:-2]
                     script.append("{} array {} ={}".format(var_type, k, array_string))
